@@ -1,16 +1,17 @@
 """C12 - an exercise checker never prints OK for an answer that violates the exercise criterion."""
-import exercises as E
+import exercises2 as E
 import coqlit as L
 
-COQ_IMPORTS = ['Model.DFA', 'Model.NFA', 'Model.Regexp', 'Model.CFG', 'Model.Checkers', 'Judge.C12_judge']
-RULE = ('exercise instances of the 22 exercise kinds of the notebooks (language from word list for DFA / NFA / regexp, accept/reject lists for CFG, union, intersection, symmetric difference, complement, reverse, '
+COQ_IMPORTS = ['Model.DFA', 'Model.NFA', 'Model.Regexp', 'Model.CFG', 'Model.Lang', 'Model.CYK', 'Model.Checkers', 'Judge.Common', 'Judge.C12_judge', 'Judge.C12fb_judge']
+EXTRA_JUDGES = ['C12fb']
+RULE = ('exercise instances of the 31 exercise kinds (language from word list for DFA / NFA / regexp / grammar, language from a reference file (DFA, NFA, regexp answers against DFA, NFA, regexp files), accept/reject lists for CFG and DFA, automata_checker.check_{dfa,nfa}_for_given_language, union, intersection, symmetric difference, complement, reverse, '
         'minimal DFA (quotient and Hopcroft answers), NFA-to-DFA, DFA-to-regexp, CYK table, leftmost / rightmost / any derivation, Chomsky phases 1-5) with random references; for each the library\'s own answer '
         '(notebooks/make_notebook.apply_command) and single-fault perturbations of it (dropped / duplicated / replaced token or character, dropped or swapped line, flipped accepting state). '
         'The real check_* function runs with stdout captured; the answer is parsed with the parser the checker uses and the proved model checker (Model/Checkers.v) decides the criterion inside Coq. '
-        'Relation: printed OK implies criterion. Non-trivial = at least one perturbed answer is rejected and the own answer is accepted; distinct by (kind, seed).')
-CODES = {1: 'undecidable within the oracle budget'}
+        'Relation: printed OK implies criterion; every printed counterexample word ("word w should (not) be accepted") is judged against the bounded languages of answer and reference computed by the proved enumerators: genuine, right polarity, minimal length in its difference set for the language-comparison feedback. Non-trivial = at least one perturbed answer is rejected and the own answer is accepted; distinct by (kind, seed).')
+CODES = {1: 'undecidable within the oracle budget', 15: 'a reported counterexample word is not genuine / has the wrong polarity / is not of minimal length'}
 for c, k in [(10, 'language-from-words'), (20, 'accept/reject lists'), (30, 'product automaton'), (40, 'complement'), (50, 'reverse'), (60, 'minimal DFA'), (70, 'NFA-to-DFA'),
-             (80, 'DFA-to-regexp'), (90, 'CYK table'), (100, 'derivation'), (110, 'Chomsky phase')]:
+             (80, 'DFA-to-regexp'), (90, 'CYK table'), (100, 'derivation'), (110, 'Chomsky phase'), (120, 'language-from-file'), (130, 'given-language (automata_checker)')]:
     CODES[c] = k + ' checker printed OK for an answer that violates the criterion'
     CODES[c + 1] = k + ': the library\'s own answer was not accepted'
     CODES[c + 2] = k + ': the model checker rejects the library\'s own answer'
@@ -31,7 +32,13 @@ def observe(c):
 def encode(c, o):
     if o.get('setup_error'):
         return '0'
-    return 'worst_code %s' % L.lst('(%s)' % E.encode_answer(c, o, a, MUST_OK) for a in o['answers'])
+    terms = []
+    for a in o['answers']:
+        terms.append('(%s)' % E.encode_answer(c, o, a, MUST_OK))
+        fb = E.encode_feedback(c, o, a)
+        if fb:
+            terms.append('(%s)' % fb)
+    return 'worst_code %s' % L.lst(terms)
 
 
 def key(c):
